@@ -244,6 +244,7 @@ void run_c04(sim::RunCtx& ctx) {
         validfile::finish(vf, ctx);
         img = vf.bytes;
     }
+    ctx.sample = (kind == 8 ? std::string("garbage") : vf.desc) + sim::fmt(" || hostile kind %u (details only when the run survives)", kind);
     if (common::plan_only()) return;
     if (kind <= 3) { if (!mutate_footer(img, r, what)) what = "footer not parseable"; if (r.below(4) == 0) block_faults(img, r, what); }
     else if (kind == 4 || kind == 5) {
